@@ -719,6 +719,9 @@ def replay_destructure(rp):
         "def outer():\n    a, b = 1, 2\n    def g():\n        return a, b\n    a, b = b, a\n    return g()\nr = outer()\n",
         "w = 0\ndef f():\n    return w\nw, t = 5, f()\nx, y = 1, 2\nx, y = y, x\nr = (w, t, x, y)\n",
         "class K:\n    p, q = 1, 2\n    p, q = q, p\nr = (K.p, K.q)\n",
+        # several targets: strictly left to right, whatever their kind (a pattern rebinding a name that a later subscript target reads)
+        "grid = [0, 0, 0, 0]\npos = 0\n(pos, step) = grid[pos] = (2, 1)\nr = (grid, pos, step)\n",
+        "d = {}\nk = 'a'\nd[k] = (k, v) = ('b', 1)\nd[k] = k, w = 'c', 2\nr = (d, k, v, w)\n",
     ]
     for s in srcs:
         rep = RU.replay_source(s, "same-globals", names=["r"])
